@@ -16,8 +16,8 @@ FOOTPRINT = ["ExtSet", "ExtDel", "Expire", "ExpireAll", "ExpireV", "Refresh", "C
 def spec(chk):
     q = chk.quick
     return dict(
-        cfgs=[dict(name="ext", acts=["SetV", "Expire", "ExpireV", "Refresh", "Read", "Query", "Ext"], depth=4 if q else 5,
-                   deep_depth=6 if q else 7, eoc=True, legacy=True, random=200 if q else 2000)],
+        cfgs=[dict(name="ext", acts=["SetV", "Expire", "ExpireV", "Refresh", "Read", "Query", "Ext"], depth=5 if q else 6, edge_sample=0.4 if q else 0.5,
+                   deep_depth=7 if q else 8, eoc=True, legacy=True, random=200 if q else 2000)],
         invs=INVS, props=PROPS, footprint=FOOTPRINT,
         nontrivial=lambda frm, act: act["a"] in ("Read", "Refresh", "QueryAll") or (act["a"] in ("ExtSet", "ExtDel") and any(x != "none" for x in frm["imap"])))
 
